@@ -289,6 +289,21 @@ fn cexpr_ty(goenv: &GlobalGoEnv, e: &anf::CExpr) -> goty::GoType {
     tast_ty_to_go_type(&t)
 }
 
+/// The structs the compiler makes up - for tuples, reference cells, trait objects, closure
+/// environments and the instances of generic types - are declared as they are needed, after the
+/// variants have been named: a variant spelled like one of them (`Tuple2_int32_bool`,
+/// `ref_int32_x`, `dyn__Tr`, `closure_env_f_0`, `Box__int32`) gets its enum's name in front
+/// whether or not that struct exists in this program.
+fn spelled_like_a_generated_type(name: &str) -> bool {
+    name.starts_with("ref_")
+        || name.starts_with("dyn__")
+        || name.starts_with("closure_env_")
+        || name.contains("__")
+        || name
+            .strip_prefix("Tuple")
+            .is_some_and(|rest| rest.starts_with(|c: char| c.is_ascii_digit()))
+}
+
 fn variant_struct_name(goenv: &GlobalGoEnv, enum_name: &str, variant_name: &str) -> String {
     // Count how many enums define a variant with this name.
     let mut count = 0;
@@ -315,7 +330,7 @@ fn variant_struct_name(goenv: &GlobalGoEnv, enum_name: &str, variant_name: &str)
             .extern_types
             .keys()
             .any(|name| name == variant_name);
-    if count > 1 || names_a_type {
+    if count > 1 || names_a_type || spelled_like_a_generated_type(variant_name) {
         format!("{}_{}", go_ident(enum_name), go_ident(variant_name))
     } else {
         go_ident(variant_name)
